@@ -13,7 +13,8 @@ Proof.
   intros R. apply andb_true_iff in R. destruct R as [R R3]. apply andb_true_iff in R. destruct R as [R1 R2].
   apply N.eqb_eq in R1. subst p0. apply negb_true_iff in R2.
   destruct (ps s p) as [[| |po| | | |]|] eqn:Hp; try discriminate R3.
-  cbn [main_handler]. rewrite R2. unfold on_open. rewrite Hp. destruct po as [y|].
+  cbn [main_handler]. rewrite R2. unfold on_open. rewrite Hp.
+  destruct (reusable s po) as [y|].
   - unfold ok. intros M; injection M as <- <- <-. setters. rewrite upd_same. auto.
   - unfold svc_open.
     destruct (conn s p); [destruct (dead s p)|]; intros M; injection M as <- <- <-; setters; rewrite ?upd_same; cbn;
@@ -31,11 +32,20 @@ Proof.
       intros H; injection H as _ <- _; auto.
 Qed.
 
+Lemma answers_shut q s p : answers q (shut_ev s p) = [].
+Proof.
+  unfold shut_ev. destruct (ps s p) as [[]|]; auto. destruct (task_closed s k); auto.
+Qed.
+
+Lemma answers_cons_shut q e s p : answers q (e :: shut_ev s p) = answers q [e].
+Proof. change (e :: shut_ev s p) with ([e] ++ shut_ev s p). unfold answers. rewrite filter_app. fold (answers q (shut_ev s p)). rewrite answers_shut. apply app_nil_r. Qed.
+
 Ltac ans_close :=
   let q := fresh "q" in intros q;
   try match goal with
-      | H0 : ?ev = [] \/ (exists t, _ /\ ?ev = [UClosed _]) |- _ => destruct H0 as [->|(? & ? & ->)]
+      | H0 : ?ev = [] \/ (exists t, _ /\ ?ev = [UClosedT _ _]) |- _ => destruct H0 as [->|(? & ? & ->)]
       end;
+  rewrite ?answers_cons_shut;
   unfold answers; cbn [filter is_answer];
   repeat match goal with |- context [if ?b then _ else _] => destruct b end; cbn; lia.
 
@@ -45,7 +55,21 @@ Proof.
   intros M. destruct o; unfold_handlers M.
   all: try (split_all; ans_close; fail).
   match type of M with context [finish_tasks ?a ?b] => destruct (finish_tasks a b) as [[l' e'] n'] eqn:F end.
-  split_all. intros q. rewrite (finish_tasks_noans _ _ q _ _ _ F). cbn. lia.
+  split_all. intros q. unfold answers. rewrite filter_app. fold (answers q e'). rewrite (finish_tasks_noans _ _ q _ _ _ F).
+  destruct (n' =? 0); cbn; [lia|]. fold (answers q (shut_ev (set_tasks s l') p)). rewrite answers_shut. cbn. lia.
+Qed.
+
+(* the Closed reports are no answers: what the user is handed has the same answers as what was emitted *)
+Lemma answers_delivered q ev : forall s, answers q (delivered s ev) = answers q ev.
+Proof.
+  induction ev as [|e t IH]; intros s; cbn [delivered]; auto.
+  destruct e; cbn [closed_report]; unfold answers in *; cbn [filter is_answer].
+  - apply IH.
+  - rewrite IH. reflexivity.
+  - destruct (current s p None); cbn [filter is_answer]; apply IH.
+  - rewrite IH. reflexivity.
+  - apply IH.
+  - destruct (current s p (Some k)); cbn [filter is_answer]; apply IH.
 Qed.
 
 (* what the protocol still expects from its environment for the outbound half of peer p *)
@@ -67,7 +91,7 @@ Qed.
 
 Lemma obligation_ok s p : SL s -> B3 s -> L3 s -> in_progress (ps s p) = true -> obligation s p = true.
 Proof.
-  intros H B L I. pose proof (H p) as K. pose proof (B p) as Bp. pose proof (L p) as Lp.
+  intros H B L I. pose proof (H p) as K. pose proof (proj1 B p) as Bp. pose proof (L p) as Lp.
   unfold obligation, pok in *. destruct (ps s p) as [[|b|po| |y|d o i|k]|]; try discriminate I.
   - apply existsb_spend, Bp. reflexivity.
   - destruct o; try discriminate I.
@@ -80,17 +104,9 @@ Qed.
 
 Lemma drain_hval_mono ev : forall s s' dr ks p, drain s ev = (s', dr, ks) -> hval s p = true -> hval s' p = true.
 Proof.
-  induction ev as [|e t IH]; intros s s' dr ks p; cbn.
-  - intros H; injection H as <- _ _. auto.
-  - destruct e.
-    + destruct (hval s p0) eqn:HV.
-      * destruct (drain s t) as [[a b] c0] eqn:E. intros H; injection H as <- _ _. eapply IH; eauto.
-      * intros H A. eapply (IH _ _ _ _ _ H). setters. unfold upd. destruct (p =? p0); auto.
-    + intros H A. eapply (IH _ _ _ _ _ H). exact A.
-    + destruct (drain (set_hsink (set_hopen s p0 false) p0 None) t) as [[a b] c0] eqn:E. intros H; injection H as <- _ _.
-      intros A. eapply (IH _ _ _ _ _ E). exact A.
-    + intros H. eapply IH; eauto.
-    + intros H. eapply IH; eauto.
+  intros s s' dr ks p D. revert s s' dr ks D.
+  apply (drain_rel (fun s s' => hval s p = true -> hval s' p = true)); intros; setters; auto.
+  unfold upd. destruct (p =? p0); auto.
 Qed.
 
 Lemma drain_sets ev : forall s s' dr ks p, drain s ev = (s', dr, ks) -> has_validate p ev = true -> hval s' p = true.
@@ -106,9 +122,12 @@ Proof.
       * destruct (drain s t) as [[a b] c0] eqn:D. intros H; injection H as <- _ _. eapply IH; eauto.
       * intros H. eapply (IH _ _ _ _ _ H).
   - intros H. eapply (IH _ _ _ _ _ H).
-  - destruct (drain (set_hsink (set_hopen s p0 false) p0 None) t) as [[a b] c0] eqn:D. intros H; injection H as <- _ _. eapply (IH _ _ _ _ _ D).
+  - destruct (current s p0 None); [|intros H; eapply IH; eauto].
+    destruct (drain (set_hsink (set_hopen s p0 false) p0 None) t) as [[a b] c0] eqn:D. intros H; injection H as <- _ _. eapply (IH _ _ _ _ _ D).
   - intros H. eapply IH; eauto.
   - intros H. eapply IH; eauto.
+  - destruct (current s p0 (Some k)); [|intros H; eapply IH; eauto].
+    destruct (drain (set_hsink (set_hopen s p0 false) p0 None) t) as [[a b] c0] eqn:D. intros H; injection H as <- _ _. eapply (IH _ _ _ _ _ D).
 Qed.
 
 Lemma task_dies_ledger s k s' ev :
@@ -119,11 +138,12 @@ Proof.
   unfold task_dies. destruct (find_task k (tasks s)) as [t|]; [|intros E; injection E as <- <-; auto].
   destruct (t_closing t); [intros E; injection E as <- <-; auto|].
   destruct (t_gated t); intros E; injection E as <- <-.
-  - repeat split; auto.
-  - repeat split; auto.
+  - split; [|split; [|split]]; auto.
+  - split; [|split; [|split]]; auto.
     + intros q. now rewrite inprog_on_shutdown.
     + intros B. apply B3_on_shutdown. exact B.
     + intros L q V. apply val_on_shutdown in V. rewrite hval_on_shutdown. apply L, V.
+    + intros q. rewrite answers_cons_shut. reflexivity.
 Qed.
 
 Lemma kill_tasks_ledger ks : forall s s' ev,
@@ -137,7 +157,7 @@ Proof.
     intros E; injection E as <- <-.
     destruct (task_dies_ledger _ _ _ _ E1) as (A1 & A2 & A3 & A4).
     destruct (IH _ _ _ E2) as (C1 & C2 & C3 & C4).
-    repeat split; auto.
+    split; [|split; [|split]]; auto.
     + intros q. now rewrite C1.
     + intros q. unfold answers in *. rewrite filter_app, A4, C4. reflexivity.
 Qed.
@@ -150,6 +170,18 @@ Qed.
 
 Lemma has_answer_app q a b : has_answer q (a ++ b) = has_answer q a || has_answer q b.
 Proof. apply existsb_app. Qed.
+
+Lemma has_answer_delivered q ev : forall s, has_answer q (delivered s ev) = has_answer q ev.
+Proof.
+  induction ev as [|e t IH]; intros s; cbn [delivered]; auto.
+  destruct e; cbn [closed_report]; unfold has_answer in *; cbn [existsb is_answer].
+  - apply IH.
+  - rewrite IH. reflexivity.
+  - destruct (current s p None); cbn [existsb is_answer]; apply IH.
+  - rewrite IH. reflexivity.
+  - apply IH.
+  - destruct (current s p (Some k)); cbn [existsb is_answer]; apply IH.
+Qed.
 
 Lemma has_answer_notifs q l : has_answer q (map UNotif l) = false.
 Proof. induction l; cbn; auto. Qed.
@@ -185,25 +217,44 @@ Record LInv (s : st) (owed : peer -> bool) : Prop := mkLInv {
   l_l3 : L3 s
 }.
 
-Lemma B3_same s s' : ps s' = ps s -> spend s' = spend s -> B3 s -> B3 s'.
-Proof. intros P S B p x. rewrite P, S. apply B. Qed.
+Lemma B3_same s s' : ps s' = ps s -> pend s' = pend s -> spend s' = spend s -> B3 s -> B3 s'.
+Proof. intros P Pe S [B Q]. split; [intros p x|intros x q]; rewrite ?P, ?Pe, ?S; auto. Qed.
+
+(* the no-dead-id invariant is kept by every step, whatever the user does *)
+Lemma step_B3 c s o s' ev cl : SInv s -> B3 s -> step c s o = Some (s', ev, cl) -> B3 s'.
+Proof.
+  intros [H B] LB. unfold step.
+  destruct (main_handler c s o) as [[[s1 ev1] cl1]|] eqn:M; [|discriminate].
+  destruct (drain s1 ev1) as [[s2 dr] ks] eqn:D.
+  destruct (kill_tasks s2 ks) as [s4 ev4] eqn:K.
+  destruct (drain s4 ev4) as [[s5 x] y] eqn:D5.
+  intros E; injection E as <- _ _.
+  pose proof (drain_tasks _ _ _ _ _ D) as (P2 & _). pose proof (drain_net _ _ _ _ _ D) as (_ & _ & _ & _ & Pe2 & S2 & _).
+  pose proof (drain_tasks _ _ _ _ _ D5) as (P5 & _). pose proof (drain_net _ _ _ _ _ D5) as (_ & _ & _ & _ & Pe5 & S5 & _).
+  destruct (kill_tasks_ledger _ _ _ _ K) as (_ & KB & _ & _).
+  pose proof (B3_main _ _ _ _ _ _ LB B M) as B1.
+  eapply B3_same; [exact P5|exact Pe5|exact S5|]. apply KB. eapply B3_same; [exact P2|exact Pe2|exact S2|exact B1].
+Qed.
+
+Lemma B3_init : B3 init.
+Proof. split; [intros p x; cbn; discriminate|intros x q []]. Qed.
 
 Lemma step_ledger c s o owed s' ev cl :
-  SInv s -> LInv s owed -> class2_step s o = false -> class3_step s o = false ->
+  SInv s -> LInv s owed -> class3_step s o = false ->
   step c s o = Some (s', ev, cl) -> LInv s' (owed_next s o ev owed).
 Proof.
-  intros [H B] [L1 LB L3s] C2 C4. unfold step in *.
+  intros [H B] [L1 LB L3s] C4. unfold step in *.
   destruct (main_handler c s o) as [[[s1 ev1] cl1]|] eqn:M; [|discriminate].
   destruct (drain s1 ev1) as [[s2 dr] ks] eqn:D.
   destruct (kill_tasks s2 ks) as [s4 ev4] eqn:K.
   destruct (drain s4 ev4) as [[s5 x] y] eqn:D5.
   intros E; injection E as <- <- <-.
-  pose proof (drain_tasks _ _ _ _ _ D) as (P2 & _). pose proof (drain_net _ _ _ _ _ D) as (_ & _ & _ & _ & _ & S2 & _).
-  pose proof (drain_tasks _ _ _ _ _ D5) as (P5 & _). pose proof (drain_net _ _ _ _ _ D5) as (_ & _ & _ & _ & _ & S5 & _).
+  pose proof (drain_tasks _ _ _ _ _ D) as (P2 & _). pose proof (drain_net _ _ _ _ _ D) as (_ & _ & _ & _ & Pe2 & S2 & _).
+  pose proof (drain_tasks _ _ _ _ _ D5) as (P5 & _). pose proof (drain_net _ _ _ _ _ D5) as (_ & _ & _ & _ & Pe5 & S5 & _).
   destruct (kill_tasks_ledger _ _ _ _ K) as (KI & KB & KL & KA).
   assert (IP : forall q, in_progress (ps s5 q) = in_progress (ps s1 q)) by (intros q; rewrite P5, KI, P2; reflexivity).
-  assert (HA : forall q, has_answer q (ev1 ++ map UNotif (filter (hopen s2) (notifs_of s o)) ++ ev4) = has_answer q ev1).
-  { intros q. rewrite !has_answer_app, has_answer_notifs, (answers_nil_has _ _ (KA q)). now rewrite !orb_false_r. }
+  assert (HA : forall q, has_answer q (delivered s1 ev1 ++ map UNotif (filter (hopen s2) (notifs_of s o)) ++ delivered s4 ev4) = has_answer q ev1).
+  { intros q. rewrite !has_answer_app, has_answer_notifs, !has_answer_delivered, (answers_nil_has _ _ (KA q)). now rewrite !orb_false_r. }
   constructor.
   - intros p. unfold owed_next. rewrite HA, IP.
     destruct (has_answer p ev1) eqn:A1; [discriminate|].
@@ -213,8 +264,8 @@ Proof.
       destruct (in_progress (ps s1 p)) eqn:I1; auto.
       destruct (leave_main _ _ _ _ _ _ M p L1 I1) as [X|X]; [congruence|].
       rewrite (reject_class3 _ _ _ X L1) in C4. discriminate.
-  - pose proof (B3_main _ _ _ _ _ _ LB B C2 M) as B1.
-    eapply B3_same; [exact P5|exact S5|]. apply KB. eapply B3_same; [exact P2|exact S2|exact B1].
+  - pose proof (B3_main _ _ _ _ _ _ LB B M) as B1.
+    eapply B3_same; [exact P5|exact Pe5|exact S5|]. apply KB. eapply B3_same; [exact P2|exact Pe2|exact S2|exact B1].
   - assert (L2 : L3 s2).
     { intros q V. rewrite P2 in V. destruct (L3_main _ _ _ _ _ _ L3s M q V) as [A|A].
       - eapply drain_hval_mono; eauto.
@@ -230,7 +281,8 @@ Proof.
   destruct (kill_tasks s2 ks) as [s4 ev4] eqn:K.
   destruct (drain s4 ev4) as [[s5 x] y]. intros E; injection E as _ <- _. intros q.
   destruct (kill_tasks_ledger _ _ _ _ K) as (_ & _ & _ & KA).
-  unfold answers in *. rewrite !filter_app, KA, app_nil_r.
+  pose proof (answers_delivered q ev1 s1) as A1. pose proof (answers_delivered q ev4 s4) as A4.
+  unfold answers in *. rewrite !filter_app, A1, A4, KA, app_nil_r.
   assert (N0 : filter (is_answer q) (map UNotif (filter (hopen s2) (notifs_of s o))) = []).
   { induction (filter (hopen s2) (notifs_of s o)); cbn; auto. }
   rewrite N0, app_nil_r. eapply answers_main; eauto.
@@ -246,14 +298,13 @@ Fixpoint ledger (c : cfg) (s : st) (owed : peer -> bool) (l : list op) : option 
       end
   end.
 
-(* the histories the ledger theorem is about: outside finding class 2 (no failed substream id is kept
-   pending) and class 3 (the user does not reject an inbound substream of a peer while an outbound
-   substream for that peer is wanted) *)
+(* the histories the ledger theorem is about: outside finding class 3 (the user does not reject an
+   inbound substream of a peer while an outbound substream for that peer is wanted) *)
 Fixpoint ledger_env (c : cfg) (s : st) (l : list op) : bool :=
   match l with
   | [] => true
   | o :: t =>
-      negb (class2_step s o) && negb (class3_step s o) &&
+      negb (class3_step s o) &&
       match step c s o with
       | Some (s1, _, _) => ledger_env c s1 t
       | None => true
@@ -261,7 +312,12 @@ Fixpoint ledger_env (c : cfg) (s : st) (l : list op) : bool :=
   end.
 
 Lemma LInv_init : LInv init (fun _ => false).
-Proof. constructor; intros p; cbn; discriminate. Qed.
+Proof.
+  constructor.
+  - intros p; cbn; discriminate.
+  - split; [intros p x; cbn; discriminate|intros x q []].
+  - intros p; cbn; discriminate.
+Qed.
 
 Lemma ledger_inv c l : forall s owed s' owed',
   SInv s -> LInv s owed -> ledger_env c s l = true -> ledger c s owed l = Some (s', owed') ->
@@ -269,8 +325,8 @@ Lemma ledger_inv c l : forall s owed s' owed',
 Proof.
   induction l as [|o t IH]; intros s owed s' owed' I L E R; cbn in *.
   - injection R as <- <-. auto.
-  - apply andb_true_iff in E. destruct E as [E E3]. apply andb_true_iff in E. destruct E as [E1 E2].
-    apply negb_true_iff in E1. apply negb_true_iff in E2.
+  - apply andb_true_iff in E. destruct E as [E2 E3].
+    apply negb_true_iff in E2.
     destruct (step_SInv c s o I) as (s1 & ev & cl & S & I1). rewrite S in *.
     eapply IH; eauto. eapply step_ledger; eauto.
 Qed.
@@ -303,11 +359,45 @@ Example w_reject_check :
   | None => (false, false, false)
   end = (true, false, false).
 Proof. vm_compute. reflexivity. Qed.
+(* the former finding class 2, repaired (fix: commit): the failed id stays remembered in
+   PeerState::Closed, but the next open request does not adopt it: a new substream is requested *)
 Example w_failed_check :
   match ledger cfg_w0 init (fun _ => false) w_failed_sid2 with
-  | Some (s, owed) => (owed 0, in_progress (ps s 0), obligation s 0)
-  | None => (false, false, false)
-  end = (true, true, false).
+  | Some (s, owed) => (owed 0, in_progress (ps s 0), obligation s 0, ps s 0)
+  | None => (false, false, false, None)
+  end = (true, true, true, Some (OutInit 1)).
+Proof. vm_compute. reflexivity. Qed.
+
+(* on_open_substream before the repair: a remembered id was adopted unconditionally *)
+Definition on_open_old (c : cfg) (s : st) (p : peer) : res :=
+  match ps s p with
+  | Some (Closed (Some x)) => ok (set_ps (set_pend s (pend_insert x p (pend s))) p (Some (OutInit x)))
+  | _ => on_open c s p
+  end.
+
+Definition w_failed_pre : list op :=
+  [Established 0; SubIn 0; HsIn 0 true; Validate 0 true; OpenFail 0].
+
+(* after w_failed_pre the id 0 has failed and is still remembered; the old arm takes the request up
+   with that id although neither pending_outbound nor the transport knows it (nothing will ever answer
+   the request), the repaired one asks the transport for a new substream *)
+Example failed_id_before_fix :
+  match exec cfg_w0 init w_failed_pre with
+  | Some s =>
+      (ps s 0, pend_find 0 (pend s), spend s, hopen s 0,
+       match on_open_old cfg_w0 s 0 with
+       | Some (s', ev, cl) => Some (ps s' 0, in_progress (ps s' 0), obligation s' 0, ev, cl)
+       | None => None
+       end,
+       match on_open cfg_w0 s 0 with
+       | Some (s', ev, cl) => Some (ps s' 0, in_progress (ps s' 0), obligation s' 0, ev, cl)
+       | None => None
+       end)
+  | None => (None, None, [], true, None, None)
+  end =
+  (Some (Closed (Some 0)), None, [], false,
+   Some (Some (OutInit 0), true, false, [], []),
+   Some (Some (OutInit 1), true, true, [], [COpen 0 1])).
 Proof. vm_compute. reflexivity. Qed.
 
 (* ================================================================== the environment guards, explicitly *)
